@@ -1,8 +1,9 @@
 #!/usr/bin/env python3
 # developer helper: run a stream on the implementation and the extracted model, show first diffs
 import sys,subprocess,os
-stream=sys.argv[1]; n=sys.argv[2]; seed=sys.argv[3] if len(sys.argv)>3 else '1'
-subprocess.run(['/verif/harness/bin/wh','run',stream,'-n',n,'-seed',seed,'-out','/tmp/c.txt','-work','/tmp/whwork'],check=True,env=dict(os.environ,TZ='UTC'))
+ROOT=os.path.dirname(os.path.dirname(os.path.abspath(__file__)))
+stream=sys.argv[1]; n=sys.argv[2]; seed=sys.argv[3] if len(sys.argv)>3 else '1'; tier=sys.argv[4] if len(sys.argv)>4 else 'quick'
+subprocess.run([''+ROOT+'/harness/bin/wh','run',stream,'-n',n,'-seed',seed,'-out','/tmp/c.txt','-work','/tmp/whwork','-tier',tier],check=True,env=dict(os.environ,TZ='UTC'))
 imp={};order=[]
 for l in open('/tmp/c.txt'):
     if l.startswith('!'):
@@ -10,7 +11,7 @@ for l in open('/tmp/c.txt'):
         continue
     i,inp,obs=l.rstrip('\n').split('\t'); imp[i]=(inp,obs); order.append(i)
 open('/tmp/in.txt','w').write(''.join('%s\t%s\n'%(i,imp[i][0]) for i in order if not imp[i][0].startswith('#')))
-out=subprocess.run(['/verif/ocaml/_build/driver'],stdin=open('/tmp/in.txt'),stdout=subprocess.PIPE,text=True).stdout
+out=subprocess.run('ulimit -s unlimited 2>/dev/null; exec '+ROOT+'/ocaml/_build/driver',shell=True,stdin=open('/tmp/in.txt'),stdout=subprocess.PIPE,text=True).stdout
 bad=0
 for l in out.splitlines():
     i,obs=l.split('\t',1)
@@ -20,4 +21,4 @@ for l in out.splitlines():
             a=imp[i][1].split(' '); b=obs.split(' ')
             k=next((j for j in range(min(len(a),len(b))) if a[j]!=b[j]),min(len(a),len(b)))
             print(i,imp[i][0][:400]); print('  first diff at obs token',k,'of',len(a),len(b),'impl:',[x[:80] for x in a[k:k+2]],'model:',[x[:80] for x in b[k:k+2]])
-print('cases',len(order),'mismatch',bad)
+print('cases',len(order),'model lines',len(out.splitlines()),'mismatch',bad)
